@@ -95,7 +95,8 @@ def run_cli(argv, stdin_bytes=b'', files=None, plans=None, stdin_plan=None, stdo
                 stderr.write(str(code) + '\n')
                 res.exit = 1
         except BaseException as e:   # noqa: results to be judged, not harness failures
-            if isinstance(e, (KeyboardInterrupt,)):
+            from ..core.stall import BudgetExceeded, Stalled
+            if isinstance(e, (KeyboardInterrupt, BudgetExceeded, Stalled)):
                 raise
             res.exc = e
     finally:
@@ -129,8 +130,11 @@ def run_cli(argv, stdin_bytes=b'', files=None, plans=None, stdin_plan=None, stdo
     return res
 
 
-def run_subprocess(argv, stdin_bytes=b'', cwd=None, hashseed='0', repo=None, timeout=120):
-    """The real thing: python -m penman in a child process (real files in cwd)."""
+def run_subprocess(argv, stdin_bytes=b'', cwd=None, hashseed='0', repo=None, timeout=120, unbuffered=False):
+    """The real thing: python -m penman in a child process (real files in cwd).  stdout is a pipe, i.e.
+    block-buffered as in a real shell pipeline unless *unbuffered*; the sandbox's own PYTHONUNBUFFERED=1
+    is never inherited (it would force write-through and hide any reordering between the text layer and
+    the byte layer of stdout)."""
     from ..core import env
     e = dict(os.environ)
     e['PYTHONHASHSEED'] = str(hashseed)
@@ -138,6 +142,9 @@ def run_subprocess(argv, stdin_bytes=b'', cwd=None, hashseed='0', repo=None, tim
     e['PYTHONDONTWRITEBYTECODE'] = '1'
     e['PYTHONIOENCODING'] = 'utf-8'
     e['PYTHONUTF8'] = '1'
+    e.pop('PYTHONUNBUFFERED', None)
+    if unbuffered:
+        e['PYTHONUNBUFFERED'] = '1'
     p = subprocess.run([sys.executable, '-B', '-m', 'penman'] + list(argv), input=stdin_bytes,
                        capture_output=True, cwd=cwd, env=e, timeout=timeout)
     return p.returncode, p.stdout, p.stderr
